@@ -37,7 +37,7 @@ def iter_models(E, callee, args, argtys, callee0):
         return z3.BoolVal(not want)
     return NotImplemented
 
-def hash_trace(lg): return [l[1:] for l in lg if l[0] == 'h']
+def hash_trace(lg): return [l[1:3] for l in lg if l[0] == 'h' and (len(l) < 4 or l[3] is None)]     # writes to the outer recorder only
 def same_trace(h1, h2):
     if len(h1) != len(h2) or any(x[0] != y[0] for x, y in zip(h1, h2)): return z3.BoolVal(False)
     return z3.And(*[x[1] == y[1] for x, y in zip(h1, h2)]) if h1 else z3.BoolVal(True)
@@ -141,6 +141,44 @@ def hash_replay(kind, xs, ys):
         return {'program': f'{{{sa}: 7, {sb}: 8}} then len', 'expect': {'equals': 'OK 1'}}
     return replay
 
+# ------------------------------------------------------------------------------------------------ dict-valued keys: order-independent hash
+def shape_dictkey(item, ob):
+    """two equal dictionaries used as keys, whose tables iterate in different orders, must hash alike"""
+    n, levels = item
+    from mirsym.hashmap import hm
+    E = eng()
+    f_eq = find_fn(E, 'total_eq_of_keys'); f_hash = find_fn(E, 'total_hash_of_key')
+    ks = [SymNum('IntSmall', f'k{i}') for i in range(n)]; vs = [SymNum(l, f'v{i}') for i, l in enumerate(levels)]
+    def mk(order):
+        ent = [Tup([Adt('ObjKey', None, [obj_num(ks[i].obj())]), obj_num(vs[i].obj())]) for i in order]
+        return Adt('Obj', 'Seq', [Adt('Seq', 'Dict', [RcV(RcObj(hm(ent))), opt()])])
+    import itertools as it
+    orders = list(it.permutations(range(n)))
+    def run():
+        for s in ks + vs: E.assume(*s.pre)
+        for i in range(n):
+            for j in range(i + 1, n): E.assume(ks[i].i != ks[j].i)
+        a = mk(orders[0]); traces = []
+        for o in orders:
+            b = mk(o)
+            eq = E.run_fn(f_eq, [Ref(Cell(a)), Ref(Cell(b))])
+            if not E.branch(eq): return False, None
+            E.log.clear(); E.run_fn(f_hash, [Ref(Cell(b)), Ref(Cell(Adt('Hasher', None, [])))]); traces.append(hash_trace(E.log))
+        return True, traces
+    inner = ', '.join(f'{i + 1}: {i + 11}' for i in range(8)); inner_r = ', '.join(f'{i + 1}: {i + 11}' for i in reversed(range(8)))
+    replay = lambda model: {'program': f'(0 til 25) map (\\t -> len({{{{{inner}}}: 1, {{{inner_r}}}: 2}})) then max', 'expect': {'equals': 'OK 1'}}
+    for pc, kd, res, lg in E.explore(run):
+        ob.paths += 1; name = f'dict-valued key, {n} entries, value levels {levels}'
+        if kd == 'panic': ob.panic(name + ' panic-free', pc, res, replay=replay, cls='C09/dictkey/panic'); continue
+        if kd != 'ok': ob.missing(name, f'{kd}: {res}'); continue
+        iseq, traces = res
+        ob.check(name + ' equal to itself in every iteration order', pc, z3.BoolVal(iseq), replay=replay, cls='C09/dictkey/eq', sample='a dict equals its own permutations')
+        if iseq:
+            g = z3.And(*[same_trace(traces[0], t) for t in traces[1:]]) if len(traces) > 1 else z3.BoolVal(True)
+            ob.check(name + ' hash independent of iteration order', pc, g, replay=replay, cls='C09/dictkey/order-dependent-hash', sample=f'hash trace {[h[0] for h in traces[0]]} identical for all {len(orders)} iteration orders')
+            ob.witness('dictkey')
+    ob.absorb_engine(E)
+
 # ------------------------------------------------------------------------------------------------ valid keys
 def shape_valid(item, ob):
     """check_if_valid_key accepts exactly the kinds total_hash_of_key can hash (no path into its panics)"""
@@ -179,7 +217,7 @@ def shape_valid(item, ob):
 
 def run_shape(item, ob):
     fam, payload = item
-    {'keys': shape_keys, 'valid': shape_valid}[fam](payload, ob)
+    {'keys': shape_keys, 'valid': shape_valid, 'dictkey': shape_dictkey}[fam](payload, ob)
 
 def main(tier, seed, t0):
     global MIR
@@ -195,12 +233,13 @@ def main(tier, seed, t0):
         pick = rnd.sample(pairs, 10 if tier == 'quick' else 60)
         for p in pick: items.append(('keys', (kind, (p[0], p[1]), (p[2], p[3]))))
     for kind in ('null', 'num', 'list', 'vector', 'list_of_func', 'func', 'instance', 'stream', 'list_of_stream'): items.append(('valid', kind))
+    for n, lv in ((1, ('IntSmall',)), (2, ('IntSmall', 'Float')), (2, ('Rational', 'IntBig')), (3, ('IntSmall', 'IntSmall', 'IntSmall'))): items.append(('dictkey', (n, lv)))
     rnd.shuffle(items)
     merged, per = pmap(run_shape, items, tier)
     return finish(PROP, tier, seed, merged, t0, th=th,
         kernels=['core.rs: total_eq_of_keys, total_eq_of_key_seqs, total_hash_of_key, check_if_valid_key', 'nnum.rs: NNum::{eq, is_nan, total_eq, total_hash}, consistent_hash_f64, to_nint_if_int', 'nint.rs: NInt::{eq, hash}'],
         bounds={'keys': 'numbers of every level/representation, bare, in lists and vectors of length 1 (all level pairs) and 2 (level tuples sampled by VERIF_SEED), and nested one level',
                 'values': 'unbounded integers/rationals, all abstract doubles'},
-        outside=['SipHash itself and std HashMap probing (trusted: equal write traces give equal hashes)', 'dict-valued keys (order-independent hash accumulates real 64-bit hashes)', 'string/bytes keys (std Hash/Eq)',
+        outside=['SipHash itself and std HashMap probing (trusted: equal write traces give equal hashes; the per-entry DefaultHasher of dict-valued keys is an uninterpreted function of its writes)', 'string/bytes keys (std Hash/Eq)',
                  'the dictionary builtins built on HashMap (|., -., ||, &&, --, group_all, ...) beyond their use of ObjKey Eq/Hash'],
         assumptions=['Hasher = recorder of the write_* calls; two keys collide-free iff their traces are equal', 'f64::to_bits is a function of the (canonical) abstract float'])
